@@ -144,17 +144,24 @@ func (o *OCIDir) initIndex(r ref.Ref, locked bool) error {
 		o.mu.Lock()
 		defer o.mu.Unlock()
 	}
-	layoutFile := path.Join(r.Path, imageLayoutFile)
-	_, err := os.Stat(layoutFile)
-	if err == nil {
+	// nothing to do when a valid layout file already exists
+	if o.valid(r.Path, true) == nil {
 		return nil
 	}
 	//#nosec G301 defer to user umask settings
-	err = os.MkdirAll(r.Path, 0777)
+	err := os.MkdirAll(r.Path, 0777)
 	if err != nil && !errors.Is(err, fs.ErrExist) {
 		return fmt.Errorf("failed creating %s: %w", r.Path, err)
 	}
-	// create/replace oci-layout file
+	return o.writeLayout(r.Path)
+}
+
+// writeLayout creates the oci-layout file unless a valid one already exists.
+// The content is written to a temp file and renamed into place so that an interrupted write never leaves a truncated file.
+func (o *OCIDir) writeLayout(dir string) error {
+	if o.valid(dir, true) == nil {
+		return nil
+	}
 	layout := v1.ImageLayout{
 		Version: "1.0.0",
 	}
@@ -162,15 +169,25 @@ func (o *OCIDir) initIndex(r ref.Ref, locked bool) error {
 	if err != nil {
 		return fmt.Errorf("cannot marshal layout: %w", err)
 	}
-	//#nosec G304 users should validate references they attempt to open
-	lfh, err := os.Create(layoutFile)
+	tmpFile, err := os.CreateTemp(dir, imageLayoutFile+".*.tmp")
 	if err != nil {
-		return fmt.Errorf("cannot create %s: %w", imageLayoutFile, err)
+		return fmt.Errorf("cannot create %s tmpfile: %w", imageLayoutFile, err)
 	}
-	defer lfh.Close()
-	_, err = lfh.Write(lb)
+	tmpName := tmpFile.Name()
+	_, err = tmpFile.Write(lb)
+	errC := tmpFile.Close()
 	if err != nil {
+		_ = os.Remove(tmpName)
 		return fmt.Errorf("cannot write %s: %w", imageLayoutFile, err)
+	}
+	if errC != nil {
+		_ = os.Remove(tmpName)
+		return fmt.Errorf("cannot close %s: %w", imageLayoutFile, errC)
+	}
+	err = os.Rename(tmpName, path.Join(dir, imageLayoutFile))
+	if err != nil {
+		_ = os.Remove(tmpName)
+		return fmt.Errorf("cannot rename tmpfile to %s: %w", imageLayoutFile, err)
 	}
 	return nil
 }
@@ -241,22 +258,10 @@ func (o *OCIDir) writeIndex(r ref.Ref, i v1.Index, locked bool) error {
 	if err != nil && !errors.Is(err, fs.ErrExist) {
 		return fmt.Errorf("failed creating %s: %w", r.Path, err)
 	}
-	// create/replace oci-layout file
-	layout := v1.ImageLayout{
-		Version: "1.0.0",
-	}
-	lb, err := json.Marshal(layout)
+	// create the oci-layout file if needed
+	err = o.writeLayout(r.Path)
 	if err != nil {
-		return fmt.Errorf("cannot marshal layout: %w", err)
-	}
-	lfh, err := os.Create(path.Join(r.Path, imageLayoutFile))
-	if err != nil {
-		return fmt.Errorf("cannot create %s: %w", imageLayoutFile, err)
-	}
-	defer lfh.Close()
-	_, err = lfh.Write(lb)
-	if err != nil {
-		return fmt.Errorf("cannot write %s: %w", imageLayoutFile, err)
+		return err
 	}
 	// create/replace index.json file
 	tmpFile, err := os.CreateTemp(r.Path, "index.json.*.tmp")
